@@ -364,3 +364,38 @@ M("c14-addpadding-height", "C14", "cola/libdialect/nodes.cpp",
 M("c14-polyline-routing", "C14", "cola/libdialect/hola.cpp",
   "    // Set up a routing adapter.\n    RoutingAdapter ra(Avoid::OrthogonalRouting);", "    // Set up a routing adapter.\n    RoutingAdapter ra(Avoid::PolyLineRouting);",
   mention=["ORTHOGONAL-ROUTING"])
+
+# ---------------------------------------------------------------- rules added after seeded-change rounds 3/4
+M("c08-exempt-across-groups", "C08", "cola/libcola/cc_nonoverlapconstraints.cpp",
+  "        NodeIndexes ids(listOfNodeGroups[l]);\n", "        NodeIndexes ids(listOfNodeGroups[0]);\n",
+  mention=["EXEMPT-GROUPS"])
+M("c08-exempt-neutral-reserve", "C08", "cola/libcola/cc_nonoverlapconstraints.cpp",
+  "        NodeIndexes ids(listOfNodeGroups[l]);\n", "        NodeIndexes ids(listOfNodeGroups[l]);\n        ids.reserve(ids.size() + 1);\n",
+  expect="silent")
+M("c08-cluster-gap-swapped", "C08", "cola/libcola/cc_nonoverlapconstraints.cpp",
+  "                constraint = new vpsc::Constraint(varRight2, varLeft1,\n                        below1 + above2);",
+  "                constraint = new vpsc::Constraint(varRight2, varLeft1,\n                        above1 + below2);",
+  mention=["NONOVERLAP-FORM", "c-"])
+M("c11-pin-from-routing-poly", "C11", "cola/libavoid/obstacle.cpp",
+  "        pin->updatePosition(m_polygon);", "        pin->updatePosition(routingPolygon());", mention=["PIN-UPDATE-SOURCE"])
+M("c11-refresh-skips-directions", "C11", "cola/libavoid/connectionpin.cpp",
+  "    m_vertex->visDirections = this->directions();\n    updateVisibility();",
+  "    if (m_exclusive) m_vertex->visDirections = this->directions();\n    updateVisibility();", mention=["PIN-REFRESH"])
+M("c11-refresh-neutral-local", "C11", "cola/libavoid/connectionpin.cpp",
+  "    m_vertex->Reset(this->position());\n    m_vertex->visDirections = this->directions();",
+  "    const Point newPos = this->position();\n    m_vertex->Reset(newPos);\n    m_vertex->visDirections = this->directions();", expect="silent")
+M("c10-limit-overwritten", "C10", "cola/libavoid/orthogonal.cpp",
+  "                            minLim = std::max(minLim, prevPos);\n                            maxLim = std::min(maxLim, nextPos);\n                            isZBend = true;",
+  "                            minLim = prevPos;\n                            maxLim = std::min(maxLim, nextPos);\n                            isZBend = true;",
+  mention=["LIMITS-NARROW-ONLY"])
+M("c10-limit-neutral-if-form", "C10", "cola/libavoid/orthogonal.cpp",
+  "                            minLim = std::max(minLim, prevPos);\n                            maxLim = std::min(maxLim, nextPos);\n                            isZBend = true;",
+  "                            if (prevPos > minLim) minLim = prevPos;\n                            maxLim = std::min(maxLim, nextPos);\n                            isZBend = true;",
+  expect="silent")
+M("c10-region-no-restart", "C10", "cola/libavoid/orthogonal.cpp",
+  "                m_segment_list.erase(curr);\n                // Consider segments from the beginning, since we may have\n                // since passed segments that overlap with the new set.\n                curr = m_segment_list.begin();",
+  "                curr = m_segment_list.erase(curr);", mention=["REGION-CLOSURE"])
+M("c05-prune-waiver-axis", "C05", "cola/libavoid/makepath.cpp",
+  "                if ((bestPt.y == nextPt.y) && notInlineY && !notInlineX &&\n                        (bestPt[XDIM] != src->point[XDIM]))",
+  "                if ((bestPt.y == nextPt.y) && notInlineY && !notInlineX &&\n                        (bestPt[YDIM] != src->point[YDIM]))",
+  mention=["TURN-PRUNE-MIRROR"])
